@@ -266,10 +266,32 @@ func (eng *Engine) lemmaObligations(prop string) []*Obligation {
 					out = append(out, &Obligation{Name: name + "/lemma/" + lm.Name + "#0", Kind: "lemma", Fn: name, Result: "unknown", Solver: "generator", Model: fmt.Sprint(r)})
 				}
 			}()
+			fc.lemmaBeingProved = lm.Name // a lemma is never its own hypothesis; earlier lemmas may be used
 			fc.emitAxioms()
-			g := fc.evalBool(lm.Clause.Expr, fc.env(st, st))
+			env := fc.env(st, st)
+			for n, v := range fc.lemmaParams(lm, st) {
+				env.vars[n] = v
+			}
 			out = append(out, &Obligation{Name: name + "/vacuity/axioms-satisfiable#0", Kind: "vacuity", Fn: name, Goal: "false", Pos: vc.sc.pos(), VC: vc, Expect: "sat"})
-			out = append(out, &Obligation{Name: name + "/lemma/" + lm.Clause.Text + "#0", Kind: "lemma", Fn: name, Goal: g, Pos: vc.sc.pos(), VC: vc})
+			text := lm.Clause.Text
+			if len(text) > 90 {
+				text = text[:90]
+			}
+			if lm.Induct == "" {
+				g := fc.evalBool(lm.Clause.Expr, env)
+				out = append(out, &Obligation{Name: name + "/lemma/" + text + "#0", Kind: "lemma", Fn: name, Goal: g, Pos: vc.sc.pos(), VC: vc})
+				return
+			}
+			n, ok := env.vars[lm.Induct]
+			if !ok || n.K != KInt {
+				panic(specErr("lemma " + lm.Name + ": induction variable must be an integer parameter"))
+			}
+			// base: P(0); step: n >= 0 && P(n) ==> P(n+1)
+			base := fc.evalBool(lm.Clause.Expr, env.with(lm.Induct, intV("0", n.T)))
+			out = append(out, &Obligation{Name: name + "/lemma/base " + text + "#0", Kind: "lemma", Fn: name, Goal: base, Pos: vc.sc.pos(), VC: vc})
+			hyp := fc.evalBool(lm.Clause.Expr, env)
+			step := fc.evalBool(lm.Clause.Expr, env.with(lm.Induct, intV(app("+", n.S, "1"), n.T)))
+			out = append(out, &Obligation{Name: name + "/lemma/step " + text + "#0", Kind: "lemma", Fn: name, Goal: implies(and(app(">=", n.S, "0"), hyp), step), Pos: vc.sc.pos(), VC: vc})
 		}()
 	}
 	return out
@@ -278,14 +300,22 @@ func (eng *Engine) lemmaObligations(prop string) []*Obligation {
 func (fc *FnCtx) emitAxioms() {
 	st := &State{Heap: map[string]Term{}, Gh: map[string]Term{}, NA: "0"}
 	for _, lm := range fc.eng.cs.Lemmas {
-		if !lm.Axiom {
-			continue
+		if !lm.Axiom && len(lm.Params) == 0 {
+			continue // closed lemmas are goals only
+		}
+		if !lm.Axiom && lm.Name == fc.lemmaBeingProved {
+			break // lemmas may use the ones stated before them, never themselves or later ones
 		}
 		save := fc.pkg
 		if lm.PkgPath != "" {
 			fc.pkg = fc.eng.pkgs[lm.PkgPath]
 		}
-		t := fc.evalBool(lm.Clause.Expr, &Env{fc: fc, vars: map[string]Val{}, cur: st, old: st})
+		var t Term
+		if lm.Axiom {
+			t = fc.evalBool(lm.Clause.Expr, &Env{fc: fc, vars: map[string]Val{}, cur: st, old: st})
+		} else {
+			t = fc.lemmaAsFact(lm)
+		}
 		fc.pkg = save
 		if t == "true" {
 			continue
@@ -303,6 +333,11 @@ func (fc *FnCtx) emitAxioms() {
 		for g := range fc.eng.cs.Ghosts {
 			if gs := sym("ghost:" + g + "@0"); strings.Contains(t, gs) {
 				syms = append(syms, gs)
+			}
+		}
+		for _, rd := range fc.vc.recDefs {
+			if rd.fname != "" && strings.Contains(t, "("+rd.fname+" ") {
+				syms = append(syms, rd.fname)
 			}
 		}
 		if fc.vc.axLines == nil {
